@@ -8,6 +8,7 @@ package ring
 
 import (
 	"fmt"
+	"sort"
 	"strconv"
 	"strings"
 
@@ -327,7 +328,8 @@ func (x *runner) do(op string) {
 	x.o.Op(op, ret+" "+st)
 }
 
-var startCaps = []int{0, 8, 9, 16, 1023, 1024, 1025, 1127}
+var smallCaps = []int{-3, 0, 8, 9, 16} // requested sizes ≤ RINGBUFFER_MIN (also negative) give capacity 8
+var largeCaps = []int{1023, 1024, 1025, 1127}
 
 func (x *runner) pushNext() {
 	x.next++
@@ -417,9 +419,9 @@ func Run(o *hx.Out, g *hx.Rng, tier string) {
 	for s := 0; s < nseq; s++ {
 		x := &runner{o: o}
 		// 65 % small capacities (cheap, most of the index arithmetic), 35 % around RINGBUFFER_EXP
-		c := startCaps[g.Intn(4)]
+		c := smallCaps[g.Intn(len(smallCaps))]
 		if g.Chance(35) {
-			c = startCaps[4+g.Intn(4)]
+			c = largeCaps[g.Intn(len(largeCaps))]
 		}
 		o.Case("")
 		capn := max(c, kcp.RINGBUFFER_MIN)
@@ -472,6 +474,10 @@ func Run(o *hx.Out, g *hx.Rng, tier string) {
 		o.Count("growth-chain")
 		x.finish()
 	}
+	// report the shortest failing op sequence first
+	sort.SliceStable(o.Res.Violations, func(i, j int) bool {
+		return len(o.Res.Violations[i].Replay) < len(o.Res.Violations[j].Replay)
+	})
 }
 
 // exhaustive enumerates every op sequence of the given depth over a small alphabet from a few
